@@ -299,6 +299,10 @@ class C15(framework.PropertyCheck):
             ("(defmacro m9 [p] `',p)", '(m9 (if 1 a b))', "'(if 1 a b)"),
             ("(defmacro m9 [p] `(list ',p (length ',p)))", f'(m9 (do {V}))'),
             ("(defmacro m9 [p] `(list ',(first p) ',(length p)))", '(m9 (&& 1 0 x))', "(list '&& 4)"),
+            # an operand that is itself a template: its unquotes belong to the caller and are evaluated when the expansion runs, in the caller's scope
+            ("(defmacro m9 [p] `(list ,p ,p))", f'(m9 `(a ,{V}))', f"(list (list 'a {V}) (list 'a {V}))"),
+            ("(defmacro m9 [p] `(first ,p))", f'(list (m9 `(,(+ {V} 1) 0)) (last (for/list [e9 `(1 ,{V} ,(+ {V} 1))] (* e9 2))))', f'(list (+ {V} 1) (* 2 (+ {V} 1)))'),
+            ("(defmacro m9 [p] `(fn [] ,p))", f'(let ([f9 (m9 `(v ,{V}))]) (list (f9) (car `(,{V} 0)) (cadr `(0 ,{V}))))', f"(list (list 'v {V}) {V} {V})"),
         ])
         return m
 
